@@ -21,6 +21,9 @@ from datetime import datetime, timedelta, timezone
 # real functions, captured before anything is patched
 # ----------------------------------------------------------------------------
 REAL = {
+    "os.open": os.open,
+    "os.write": os.write,
+    "os.close": os.close,
     "os.walk": os.walk,
     "io.open": io.open,
     "builtins.open": builtins.open,
@@ -370,8 +373,8 @@ def _fire(plan, desc, rel, k):
 class FaultRaw(io.FileIO):
     """Raw file whose writes are accounted byte by byte against the fault plan."""
 
-    def __init__(self, path, mode, rel):
-        super().__init__(path, mode)
+    def __init__(self, path, mode, rel, closefd=True):
+        super().__init__(path, mode, closefd=closefd)
         self._rel = rel
 
     def write(self, b):
@@ -407,6 +410,16 @@ def _is_write_mode(mode: str) -> bool:
 
 def sim_open(file, mode="r", buffering=-1, encoding=None, errors=None, newline=None,
              closefd=True, opener=None):
+    if (isinstance(file, int) and file in _FD_PATHS and CTX.active and isinstance(mode, str)
+            and _is_write_mode(mode) and opener is None):
+        # os.fdopen / open(fd) on a descriptor obtained through sim_os_open
+        rel = _FD_PATHS.pop(file) if closefd else _FD_PATHS[file]
+        raw = FaultRaw(file, mode.replace("b", "").replace("t", ""), rel, closefd=closefd)
+        if "b" in mode:
+            return raw if buffering == 0 else io.BufferedWriter(raw)
+        text = io.TextIOWrapper(io.BufferedWriter(raw), encoding=encoding, errors=errors, newline=newline)
+        text.mode = mode
+        return text
     if (isinstance(file, int) or opener is not None or not isinstance(mode, str)
             or not _is_write_mode(mode) or not _under_root(file)):
         return REAL["io.open"](file, mode, buffering, encoding, errors, newline, closefd, opener)
@@ -440,6 +453,65 @@ def sim_open(file, mode="r", buffering=-1, encoding=None, errors=None, newline=N
     text = io.TextIOWrapper(buf, encoding=encoding, errors=errors, newline=newline)
     text.mode = mode
     return text
+
+
+# -- os-level file I/O (os.open / os.write / os.fdopen, tempfile.mkstemp) ------------------
+_FD_PATHS = {}      # fd opened for writing under the world root -> relative path
+
+
+def sim_os_open(path, flags, mode=0o777, *, dir_fd=None):
+    writing = flags & (os.O_WRONLY | os.O_RDWR | os.O_CREAT | os.O_TRUNC | os.O_APPEND)
+    if dir_fd is not None or not writing or not _under_root(path):
+        if dir_fd is not None:
+            return REAL["os.open"](path, flags, mode, dir_fd=dir_fd)
+        return REAL["os.open"](path, flags, mode)
+    rel = _rel(path)
+    if CTX.io_dead:
+        return REAL["os.open"](os.devnull, os.O_WRONLY)
+    exists = os.path.lexists(path)
+    if not exists and (flags & os.O_CREAT):
+        _tick_event("create", rel)
+    elif exists and (flags & os.O_TRUNC):
+        _tick_event("truncate", rel)
+    fd = REAL["os.open"](path, flags, mode)
+    _FD_PATHS[fd] = rel
+    CTX.counters["open_for_write"] += 1
+    return fd
+
+
+def sim_os_write(fd, data):
+    rel = _FD_PATHS.get(fd)
+    if rel is None or not CTX.active:
+        return REAL["os.write"](fd, data)
+    b = bytes(data)
+    n = len(b)
+    if n == 0:
+        return 0
+    if CTX.io_dead:
+        return n
+    if CTX.io_full:
+        CTX.counters["enospc_followup"] += 1
+        raise _enospc()
+    plan = CTX.io_plan
+    t0 = CTX.io_tick
+    if plan is not None and CTX.io_fired is None and t0 <= plan["tick"] < t0 + n:
+        k = plan["tick"] - t0
+        if k:
+            REAL["os.write"](fd, b[:k])
+        CTX.io_tick = t0 + k
+        if CTX.io_record:
+            CTX.io_events.append({"ev": "write", "path": rel, "tick": t0, "len": k})
+        _fire(plan, "write", rel, k)
+    w = REAL["os.write"](fd, b)
+    CTX.io_tick = t0 + n
+    if CTX.io_record:
+        CTX.io_events.append({"ev": "write", "path": rel, "tick": t0, "len": n})
+    return w
+
+
+def sim_os_close(fd):
+    _FD_PATHS.pop(fd, None)
+    return REAL["os.close"](fd)
 
 
 def sim_mkdir(path, mode=0o777, *, dir_fd=None):
@@ -717,6 +789,9 @@ def install(simset=True):
     io.open = sim_open
     builtins.open = sim_open
     os.mkdir = sim_mkdir
+    os.open = sim_os_open
+    os.write = sim_os_write
+    os.close = sim_os_close
     os.replace = sim_replace
     os.rename = sim_rename
     os.unlink = sim_unlink
